@@ -62,7 +62,7 @@ type FileSink func(leafPath string, t *Type, r *HashRng) interface{}
 
 // GenValue produces a JSON-encodable value of type t.
 func (s *Spec) GenValue(t *Type, r *HashRng, leafPath string, sink FileSink, depth int) interface{} {
-	if depth > 0 && r.Pct(s.PNull) {
+	if depth > 0 && t.Kind != KBool && r.Pct(s.PNull) { // bools are never null (a null control is not a defined condition)
 		return nil
 	}
 	switch t.Kind {
@@ -104,6 +104,9 @@ func (s *Spec) GenValue(t *Type, r *HashRng, leafPath string, sink FileSink, dep
 		return out
 	case KTMap:
 		n := r.Intn(s.MaxLen + 1)
+		if len(s.LenChoices) > 0 && depth == 0 {
+			n = s.LenChoices[r.Intn(len(s.LenChoices))]
+		}
 		pool := s.KeyPool
 		if len(pool) == 0 {
 			pool = []string{"a", "b", "c", "d"}
